@@ -76,6 +76,8 @@ func NewProxy(cfg *config.Config, ca certs.CertAuthority, ctx context.Context) (
 		return nil, fmt.Errorf("unsupported cache type: %v", cfg.Cache.Type.Read())
 	}
 
+	disableTransparentCompression()
+
 	return &Proxy{
 		ca:    ca,
 		cache: c,
